@@ -61,6 +61,7 @@ def judge(model, rec):
     kv = dict(t.split("=", 1) for t in r.split()[1:])
     out["same"] = kv.get("same") == "true"
     out["det"] = kv.get("det") == "true"
+    out["closed"] = kv.get("closed") == "true"
     out["detAfter"] = kv.get("detAfter") == "true"
     out["sizes"] = kv.get("sizes")
     return out
